@@ -109,7 +109,7 @@ func (cl *Cluster) commitVariants(r *Req, req *sarama.OffsetCommitRequest) []gx.
 	vs := []gx.Variant{cl.wrap(r, "OffsetCommit", "ok", func() { cl.doCommit(r, req, blocks, "ok", -1) })}
 	for _, f := range cl.CommitFaults {
 		f := f
-		if _, ok := commitPartitionFaults[f]; ok || f == "missing" {
+		if _, ok := commitPartitionFaults[f]; ok || f == "missing" || f == "missing-unstored" {
 			for i := range blocks {
 				i := i
 				name := f
@@ -148,12 +148,15 @@ func (cl *Cluster) doCommit(r *Req, req *sarama.OffsetCommitRequest, blocks []sa
 			if e, ok := commitPartitionFaults[fault]; ok {
 				kerr, store = e, false
 			}
+			if fault == "missing-unstored" {
+				store = false // the coordinator neither stored nor reported this block
+			}
 		}
 		if store && kerr == sarama.ErrNoError {
 			g.Offsets[TP{b.Topic, b.Partition}] = StoredOffset{b.Offset, b.Metadata}
 		}
 		ev.Stored = append(ev.Stored, store && kerr == sarama.ErrNoError)
-		if !(fault == "missing" && idx == i) {
+		if !((fault == "missing" || fault == "missing-unstored") && idx == i) {
 			res.AddError(b.Topic, b.Partition, kerr)
 		}
 	}
